@@ -17,4 +17,6 @@ done
 cd /repo && git reset -q --hard HEAD && git clean -fdq >/dev/null 2>&1
 # the evidence written while the change was applied is not evidence about /repo: restore the committed files
 git -C /verif checkout -- evidence 2>/dev/null
+# … and so are the files generated from the changed tree
+git -C /verif checkout -- lean/Generated 2>/dev/null
 git status --short | head -3
